@@ -471,41 +471,147 @@ theorem filterCLAs_again (sent clas : List Nat) :
   rw [h1]
   rcases h4 x hxc with h | h <;> simp [h]
 
-theorem broadcastHistory_spec (hist : List (List Nat)) : ∀ sent : List Nat,
-    (broadcastHistory sent hist).Nodup ∧
-    (∀ c ∈ broadcastHistory sent hist, c ∉ sent ∧ ∃ clas ∈ hist, c ∈ clas) ∧
-    (∀ clas ∈ hist, ∀ c ∈ clas, c ∈ sent ∨ c ∈ broadcastHistory sent hist) := by
-  induction hist with
-  | nil => intro sent; simp [broadcastHistory]
-  | cons clas later ih =>
-    intro sent
-    obtain ⟨f1, f2, f3, f4⟩ := filterCLAs_spec clas sent
-    obtain ⟨i1, i2, i3⟩ := ih (filterCLAs sent clas).2
-    simp only [broadcastHistory]
-    refine ⟨?_, ?_, ?_⟩
-    · refine List.nodup_append.mpr ⟨f2, i1, ?_⟩
-      intro a ha b hb hab
-      subst hab
-      apply (i2 a hb).1
-      rw [f1]; simp [ha]
-    · intro c hc
-      rcases List.mem_append.mp hc with h | h
-      · exact ⟨(f3 c h).2, clas, List.mem_cons_self, (f3 c h).1⟩
-      · obtain ⟨hns, cl, hcl, hccl⟩ := i2 c h
-        refine ⟨fun hs => hns ?_, cl, List.mem_cons_of_mem _ hcl, hccl⟩
-        rw [f1]; simp [hs]
-    · intro cl hcl c hc
-      rcases List.mem_cons.mp hcl with rfl | hcl
-      · rcases f4 c hc with h | h
-        · exact Or.inl h
-        · exact Or.inr (List.mem_append.mpr (Or.inl h))
-      · rcases i3 cl hcl c hc with h | h
-        · rw [f1] at h
-          rcases List.mem_append.mp h with h | h
-          · exact Or.inl h
-          · exact Or.inr (List.mem_append.mpr (Or.inl h))
-        · exact Or.inr (List.mem_append.mpr (Or.inr h))
+/-- Taking failed peers out of `sent ++ s` only touches `s` when none of them is in `sent`. -/
+theorem foldl_reportFailure_append (sent : List Nat) : ∀ (fs s : List Nat), (∀ f ∈ fs, f ∉ sent) →
+    fs.foldl reportFailure (sent ++ s) = sent ++ fs.foldl reportFailure s := by
+  intro fs
+  induction fs with
+  | nil => intro s _; rfl
+  | cons f rest ih =>
+    intro s h
+    simp only [List.foldl_cons, reportFailure]
+    rw [List.erase_append_right _ (h f List.mem_cons_self)]
+    exact ih _ (fun x hx => h x (List.mem_cons_of_mem _ hx))
 
+theorem foldl_reportFailure_nodup : ∀ (fs s : List Nat), s.Nodup →
+    (fs.foldl reportFailure s).Nodup ∧ ∀ x, x ∈ fs.foldl reportFailure s ↔ x ∈ s ∧ x ∉ fs := by
+  intro fs
+  induction fs with
+  | nil => intro s h; exact ⟨h, fun x => by simp⟩
+  | cons f rest ih =>
+    intro s h
+    simp only [List.foldl_cons, reportFailure]
+    obtain ⟨h1, h2⟩ := ih (s.erase f) (h.erase f)
+    refine ⟨h1, fun x => ?_⟩
+    rw [h2 x, h.mem_erase_iff]
+    simp only [List.mem_cons, not_or]
+    constructor
+    · rintro ⟨⟨hne, hs⟩, hr⟩; exact ⟨hs, hne, hr⟩
+    · rintro ⟨hs, hne, hr⟩; exact ⟨⟨hne, hs⟩, hr⟩
+
+/-- **One forwarding run of a broadcast bundle**: the peers served are pairwise different and are
+exactly the connected peers outside the sent list; afterwards the sent list holds what it held
+plus the peers served successfully — the failed ones are out again. -/
+theorem broadcastAttempt_spec (sent clas fails : List Nat) :
+    (broadcastAttempt sent clas fails).1.Nodup ∧
+    (∀ x, x ∈ (broadcastAttempt sent clas fails).1 ↔ x ∈ clas ∧ x ∉ sent) ∧
+    (∀ x, x ∈ (broadcastAttempt sent clas fails).2 ↔
+      x ∈ sent ∨ (x ∈ clas ∧ x ∉ sent ∧ x ∉ fails)) := by
+  obtain ⟨h1, h2, h3, h4⟩ := filterCLAs_spec clas sent
+  have hsend : ∀ x, x ∈ (filterCLAs sent clas).1 ↔ x ∈ clas ∧ x ∉ sent := by
+    intro x
+    constructor
+    · exact h3 x
+    · rintro ⟨hc, hs⟩
+      rcases h4 x hc with h | h
+      · exact absurd h hs
+      · exact h
+  refine ⟨h2, hsend, ?_⟩
+  intro x
+  simp only [broadcastAttempt]
+  rw [h1, foldl_reportFailure_append sent _ _ (by
+    intro f hf
+    exact (h3 f (List.mem_filter.mp hf).1).2)]
+  obtain ⟨_, hm⟩ := foldl_reportFailure_nodup ((filterCLAs sent clas).1.filter fails.contains) _ h2
+  rw [List.mem_append, hm x, hsend x]
+  simp only [List.mem_filter, List.contains_iff_mem, not_and]
+  constructor
+  · rintro (h | ⟨⟨hc, hs⟩, hnf⟩)
+    · exact Or.inl h
+    · exact Or.inr ⟨hc, hs, fun hf => hnf ((hsend x).mpr ⟨hc, hs⟩) hf⟩
+  · rintro (h | ⟨hc, hs, hnf⟩)
+    · exact Or.inl h
+    · exact Or.inr ⟨⟨hc, hs⟩, fun _ hf => hnf hf⟩
+
+/-- **A whole history of forwarding runs**: nobody in the initial sent list is ever served, and
+whenever a peer is served twice the earlier transmission had failed — so at most one successful
+transmission per peer and none after a success. -/
+theorem broadcastLog_spec (hist : List (List Nat × List Nat)) : ∀ sent : List Nat,
+    (∀ e ∈ broadcastLog sent hist, e.1 ∉ sent) ∧
+    (broadcastLog sent hist).Pairwise (fun a b => a.1 = b.1 → a.2 = false) := by
+  induction hist with
+  | nil => intro sent; simp [broadcastLog]
+  | cons step later ih =>
+    obtain ⟨clas, fails⟩ := step
+    intro sent
+    obtain ⟨a1, a2, a3⟩ := broadcastAttempt_spec sent clas fails
+    obtain ⟨i1, i2⟩ := ih (broadcastAttempt sent clas fails).2
+    simp only [broadcastLog]
+    refine ⟨?_, ?_⟩
+    · intro e he
+      rcases List.mem_append.mp he with h | h
+      · obtain ⟨p, hp, rfl⟩ := List.mem_map.mp h
+        exact ((a2 p).mp hp).2
+      · exact fun hs => i1 e h ((a3 e.1).mpr (Or.inl hs))
+    · refine List.pairwise_append.mpr ⟨?_, i2, ?_⟩
+      · refine (List.pairwise_map.mpr ?_)
+        exact a1.imp (fun hne heq => absurd heq hne)
+      · intro a ha b hb hab
+        obtain ⟨p, hp, rfl⟩ := List.mem_map.mp ha
+        simp only at hab ⊢
+        cases hf : fails.contains p with
+        | true => rfl
+        | false =>
+          exfalso
+          have hpf : p ∉ fails := by
+            intro hm
+            have : fails.contains p = true := List.contains_iff_mem.mpr hm
+            rw [hf] at this; cases this
+          have hin := (a2 p).mp hp
+          exact i1 b hb (hab ▸ (a3 p).mpr (Or.inr ⟨hin.1, hin.2, hpf⟩))
+
+theorem count_eq_one_of_nodup : ∀ {l : List Nat} {a : Nat}, l.Nodup → a ∈ l → l.count a = 1 := by
+  intro l
+  induction l with
+  | nil => intro a _ h; cases h
+  | cons b rest ih =>
+    intro a hn ha
+    obtain ⟨hb, hr⟩ := List.nodup_cons.mp hn
+    by_cases hab : b = a
+    · subst hab
+      rw [List.count_cons_self, List.count_eq_zero_of_not_mem hb]
+    · rcases List.mem_cons.mp ha with h | h
+      · exact absurd h.symm hab
+      · rw [List.count_cons_of_ne hab, ih hr h]
+
+/-- The model meets the per-run broadcast Spec the driver evaluates on the implementation, whenever
+its sent list holds exactly the peers that had the bundle initially or were served successfully. -/
+theorem broadcastAttempt_runOk (sent clas fails had0 succ : List Nat)
+    (hs : ∀ x, x ∈ sent ↔ x ∈ had0 ∨ x ∈ succ) :
+    broadcastRunOk had0 succ clas (broadcastAttempt sent clas fails).1 = true := by
+  obtain ⟨a1, a2, _⟩ := broadcastAttempt_spec sent clas fails
+  simp only [broadcastRunOk, Bool.and_eq_true, List.all_eq_true, List.contains_iff_mem,
+    Bool.not_eq_true', Bool.or_eq_true, beq_iff_eq]
+  refine ⟨⟨?_, ?_⟩, ?_⟩
+  · intro p hp
+    obtain ⟨hc, hns⟩ := (a2 p).mp hp
+    have hh : p ∉ had0 := fun h => hns ((hs p).mpr (Or.inl h))
+    have hsu : p ∉ succ := fun h => hns ((hs p).mpr (Or.inr h))
+    refine ⟨⟨hc, ?_⟩, ?_⟩
+    · cases h : had0.contains p with
+      | false => rfl
+      | true => exact absurd (List.contains_iff_mem.mp h) hh
+    · cases h : succ.contains p with
+      | false => rfl
+      | true => exact absurd (List.contains_iff_mem.mp h) hsu
+  · intro c hc
+    by_cases hsent : c ∈ sent
+    · rcases (hs c).mp hsent with h | h
+      · exact Or.inl (Or.inl h)
+      · exact Or.inl (Or.inr h)
+    · exact Or.inr ((a2 c).mpr ⟨hc, hsent⟩)
+  · intro p hp
+    exact count_eq_one_of_nodup a1 hp
 
 /-! ## §D Bellman–Ford -/
 
